@@ -11,9 +11,27 @@
      invisibility    C05_plain_ignores_hidden_subtree (unconditional), C05_hidden_blind_engine (+ _layouts, _replace)
                      for algorithms that are HiddenBlind.
    GRID part (Model/Placement.v; tables regenerated from the source): C05_grid_estimate_ignores_hidden.
+   ITEM GENERATION (Gen/FiltersGen.v: the iterator pipelines of generate_anonymous_flex_items, generate_item_list, and the two
+   child iterators of compute_grid_layout, TRANSLATED from the source on every run) -- discharges the part of HiddenBlind that
+   concerns which children become items:
+     C05_flex_items_ignore_hidden, C05_block_items_ignore_hidden, C05_grid_items_ignore_hidden
+                     the item lists do not depend on the styles of display:none children (for ANY item builder; flex / grid:
+                     `order` = source index; block: `order` counts box-generating children, so deleting the hidden children
+                     changes nothing at all)
+     C05_model_filters_are_source
+                     the hand-written filters of Model/Block.v (generate_item_list, run by C10's K1 / K2) and of
+                     Model/Placement.v (in_flow_children, estimate_children, run by the placement K) ARE the translated ones
+   BLOCK ALGORITHM as a resumption (Model/BlockAlg.v: compute_inner over the engine interface, built from the translated item
+   pipeline and the in-flow step function that C10's K runs against the implementation):
+     C05_block_algorithm_hidden_blind    HiddenBlind HOLDS for it (no longer a premise for block containers)
+     C05_block_algorithm_sets_zero_on_hidden   so does SetsZeroOnHidden
+     C05_block_engine_hidden_invisible   hence the conclusion of C05_hidden_blind_engine for every engine whose nodes are block
+                                         containers or leaves (any function of the node's own style and input)
    Interface hypotheses (premises, validated on the implementation by the metamorphic oracle `vh c05 oracle` and -- WF, H1 --
    by the event trace): WF, H1 (EngineDirty.v), SetsZeroOnHidden, HiddenBlind. *)
 From Coq Require Import List Bool Arith NArith ZArith QArith.
+From TV Require Import Num.Num Gen.BlockGen Model.Block.
+From TV Require Import Model.FiltersBase Gen.FiltersGen Model.ItemFilters Proofs.ItemFiltersBase Proofs.ItemFiltersHiddenBlock Proofs.ItemFiltersHidden Model.BlockAlg Proofs.BlockAlgBlind.
 From TV Require Import Num.QNum Model.Common Model.Leaf Model.Root Proofs.LeafProofs Proofs.HiddenRoot.
 From TV Require Import Model.Engine Model.EngineToy Proofs.EngineMemo Proofs.EngineDirty Proofs.EngineToyProofs
   Proofs.EngineHidden Proofs.EngineBlind Proofs.EngineHiddenToy.
@@ -212,6 +230,134 @@ Proof.
   split; [exact tz_algo_sets_zero|left; reflexivity].
 Qed.
 
+(* ---------------------------------------------------------------------------------------------- item generation *)
+
+(* agree_except ig f f' cs: the style assignments f, f' to the children cs agree except on children whose style is in the
+   class ig on both sides.  s_hidden bgm s := (bgm s == BoxGenerationMode::None). *)
+Theorem C05_flex_items_ignore_hidden :
+  forall (C S I : Type) (position : S -> GPosition) (bgm : S -> GBoxGenerationMode) (f f' : C -> S) (cs : list C),
+    (forall (build : nat -> C -> S -> I),
+       agree_except (s_hidden bgm) f f' cs ->
+       flex_generate_items f position bgm build cs = flex_generate_items f' position bgm build cs) /\
+    (* deleting the display:none children changes the items only in their index (`order` = source index) *)
+    (forall (build : C -> S -> I),
+       flex_generate_items f position bgm (fun _ => build) (filter (fun c => negb (s_hidden bgm (f c))) cs) =
+       flex_generate_items f position bgm (fun _ => build) cs).
+Proof.
+  intros C S I position bgm f f' cs. split.
+  - intros build Ha. apply flex_hidden_blind. exact Ha.
+  - intros build. apply flex_delete_hidden.
+Qed.
+
+Theorem C05_block_items_ignore_hidden :
+  forall (C S I : Type) (position : S -> GPosition) (bgm : S -> GBoxGenerationMode) (f f' : C -> S) (cs : list C)
+         (build : nat -> C -> S -> I),
+    (agree_except (s_hidden bgm) f f' cs ->
+     block_generate_items f position bgm build cs = block_generate_items f' position bgm build cs) /\
+    block_generate_items f position bgm build (filter (fun c => negb (s_hidden bgm (f c))) cs) =
+    block_generate_items f position bgm build cs /\
+    block_generate_items f position bgm build cs =
+    map (fun oc => build (fst oc) (snd oc) (f (snd oc))) (g_enumerate (filter (fun c => negb (s_hidden bgm (f c))) cs)).
+Proof.
+  intros C S I position bgm f f' cs build. split; [|split].
+  - intros Ha. rewrite !block_generate_items_nf. apply block_nf_hidden_blind. exact Ha.
+  - rewrite !block_generate_items_nf. apply block_nf_delete_hidden.
+  - apply block_generate_items_nf.
+Qed.
+
+Theorem C05_grid_items_ignore_hidden :
+  forall (C S : Type) (position : S -> GPosition) (bgm : S -> GBoxGenerationMode) (f f' : C -> S) (cs : list C),
+    agree_except (s_hidden bgm) f f' cs ->
+    grid_in_flow_children f position bgm cs = grid_in_flow_children f' position bgm cs /\
+    grid_estimate_children f position bgm cs = grid_estimate_children f' position bgm cs.
+Proof.
+  intros C S position bgm f f' cs Ha. split.
+  - apply (grid_in_flow_hidden_blind position bgm f f' cs Ha).
+  - apply grid_estimate_hidden_blind. exact Ha.
+Qed.
+
+(* the hand-written models use the source's filters *)
+Theorem C05_model_filters_are_source :
+  (forall (T : Type) (N : Num T) (sts : list (BStyle T)) nis,
+     generate_item_list sts nis =
+     block_generate_items (fun st => st) bs_position bs_bgm (fun order _ st => generate_item st nis (Z.of_nat order)) sts) /\
+  (forall (C S : Type) (position : S -> GPosition) (bgm : S -> GBoxGenerationMode) (style_of : C -> S) (placement : S -> child)
+          (cs : list C),
+     let children := map (fun c => (kind_of (position (style_of c)) (bgm (style_of c)), placement (style_of c))) cs in
+     estimate_children children = map placement (grid_estimate_children style_of position bgm cs) /\
+     (* placement's child iterator, on the C05 family of the placement K (no position:absolute child) *)
+     (Forall (fun c => position (style_of c) = Position_Relative) cs ->
+      in_flow_children children =
+        map (fun ics : nat * C * S => (Z.of_nat (fst (fst ics)), placement (snd ics))) (grid_in_flow_children style_of position bgm cs))) /\
+  (* which children step 5 of compute_inner lays out as hidden (Model/BlockAlg.v hidden_pass) *)
+  (forall (T : Type) (s : BStyle T) p, s_hidden bs_bgm s = block_hidden_pass_visits (bs_bgm s) p).
+Proof.
+  split; [|split].
+  - intros T N sts nis. apply generate_item_list_is_generated.
+  - intros C S position bgm style_of placement cs children. split;
+      [apply placement_estimate_is_generated|apply placement_in_flow_is_generated_no_absolute].
+  - intros T s p. apply hidden_pass_is_generated.
+Qed.
+
+(* the premise is satisfiable: a bare display:none style in place of any display:none style *)
+Example C05_items_example :
+  forall (S : Type) (bgm : S -> GBoxGenerationMode) (a b bare : S),
+    s_hidden bgm b = true -> s_hidden bgm bare = true ->
+    agree_except (s_hidden bgm) (fun c : S => c) (fun c => if s_hidden bgm c then bare else c) [a; b].
+Proof.
+  intros S bgm a b bare Hb Hbare. constructor; [|constructor; [|constructor]].
+  - cbv beta. destruct (s_hidden bgm a) eqn:E; [right; split; [reflexivity|assumption]|left; reflexivity].
+  - cbv beta. rewrite Hb. right. split; [reflexivity|assumption].
+Qed.
+
+(* ---------------------------------------------------------------------------------------------- the block algorithm *)
+
+Theorem C05_block_algorithm_hidden_blind :
+  forall (T : Type) (N : Num T) (pre : BStyle T -> BIn T -> BIn T) (abs_child : @AbsChild T),
+    HiddenBlind (BStyle T) (BIn T) (ChildOut T) (BLayout T) bs_is_none (block_alg pre abs_child) /\
+    (* the view: every display:none style is read as one bare display:none style *)
+    (forall s st i, block_alg pre abs_child s st i = block_alg pre abs_child s (map hidden_view st) i) /\
+    (forall a b : BStyle T, bs_is_none a = true -> bs_is_none b = true -> hidden_view a = hidden_view b).
+Proof.
+  intros T N pre abs_child. split; [apply block_alg_hidden_blind|]. split.
+  - intros s st i. unfold block_alg. apply block_inner_alg_none_rel. apply hidden_view_rel.
+  - intros a b Ha Hb. unfold hidden_view. rewrite Ha, Hb. reflexivity.
+Qed.
+
+(* ... and SetsZeroOnHidden (premise of C05_hidden_zero_self): the only layouts it stores on a display:none child are
+   `Layout::with_order(order)`, for every absolute-item routine that addresses only the item's own node *)
+Theorem C05_block_algorithm_sets_zero_on_hidden :
+  forall (T : Type) (N : Num T) (pre : BStyle T -> BIn T -> BIn T) (abs_child : @AbsChild T),
+    AbsChildLocal abs_child ->
+    SetsZeroOnHidden (BStyle T) (BIn T) (ChildOut T) (BLayout T) bs_is_none (block_alg pre abs_child) b_zeroish /\
+    (forall n, b_zeroish (with_order (T := T) n)).
+Proof.
+  intros T N pre abs_child Hloc. split; [apply block_alg_sets_zero_on_hidden; exact Hloc|].
+  intros n. exists (Z.of_nat n). reflexivity.
+Qed.
+
+(* engines made of block containers (sel s = true) and leaves: replacing display:none subtrees changes nothing elsewhere *)
+Theorem C05_block_engine_hidden_invisible :
+  forall (T : Type) (N : Num T) (pre : BStyle T -> BIn T -> BIn T) (abs_child : @AbsChild T)
+         (sel : BStyle T -> bool) (leaf : BStyle T -> BIn T -> ChildOut T)
+         (mode : BIn T -> RunMode) (in_eqb : BIn T -> BIn T -> bool) (hidden_out : ChildOut T) (zero_lay : BLayout T),
+    let algo := fun s st i => if sel s then block_alg pre abs_child s st i
+                              else Engine.Ret (BIn T) (ChildOut T) (BLayout T) (leaf s i) in
+    forall k k', hsim (BStyle T) bs_is_none k k' ->
+    forall f i,
+      plain (BStyle T) (BIn T) (ChildOut T) (BLayout T) mode bs_is_none hidden_out algo f k i =
+      plain (BStyle T) (BIn T) (ChildOut T) (BLayout T) mode bs_is_none hidden_out algo f k' i /\
+      orel (BStyle T) (BIn T) (ChildOut T) (BLayout T) bs_is_none
+           (memo (BStyle T) (BIn T) (ChildOut T) (BLayout T) mode in_eqb bs_is_none hidden_out zero_lay algo f
+                 (fresh (BStyle T) (BIn T) (ChildOut T) (BLayout T) zero_lay k) i)
+           (memo (BStyle T) (BIn T) (ChildOut T) (BLayout T) mode in_eqb bs_is_none hidden_out zero_lay algo f
+                 (fresh (BStyle T) (BIn T) (ChildOut T) (BLayout T) zero_lay k') i).
+Proof.
+  intros T N pre abs_child sel leaf mode in_eqb hidden_out zero_lay algo k k' Hs f i.
+  apply C05_hidden_blind_engine; [|exact Hs].
+  apply HiddenBlind_dispatch; [apply block_alg_hidden_blind|apply HiddenBlind_leaf].
+Qed.
+
 (* ---------------------------------------------------------------------------------------------- grid placement *)
 
 (* the placement section of compute_grid_layout (size estimate + placement + what detailed_layout_info reports) cannot see
@@ -248,3 +394,10 @@ Print Assumptions C05_hidden_blind_engine_step.
 Print Assumptions C05_hidden_blind_layouts.
 Print Assumptions C05_hidden_blind_replace.
 Print Assumptions C05_grid_estimate_ignores_hidden.
+Print Assumptions C05_flex_items_ignore_hidden.
+Print Assumptions C05_block_items_ignore_hidden.
+Print Assumptions C05_grid_items_ignore_hidden.
+Print Assumptions C05_model_filters_are_source.
+Print Assumptions C05_block_algorithm_hidden_blind.
+Print Assumptions C05_block_algorithm_sets_zero_on_hidden.
+Print Assumptions C05_block_engine_hidden_invisible.
